@@ -128,6 +128,22 @@ static void prod_row(const char* w, const char* store, int uplo, int flags, cons
     l.str("how", how).i("n", d.n).arr("a", ivec(M)).arr("x", ivec(d.x)).arr("y", yi).i("nonint", nonint);
     l.i("rows", (ll) op.rows()).i("cols", (ll) op.cols());
     out().put(l);
+    // the block product operator* (the interface the Davidson solver uses): first column of op * [x, 2x]
+    {
+        Mat X(d.n, 2);
+        X.col(0) = x;
+        X.col(1) = Sc(2) * x;
+        Mat Y = op * X;
+        Vec y0 = Y.col(0);
+        int nonint2 = 0;
+        std::vector<ll> yi2 = exact_ints(y0, nonint2);
+        Vec y1 = Y.col(1) - Sc(2) * y0;
+        Line b("Prod");
+        b.str("w", w).str("st", store).i("uplo", uplo == UP ? 1 : 0).i("rm", flags == RM ? 1 : 0).str("si", si).i("ty", tycode).i("sym", sym ? 1 : 0);
+        b.str("how", "block").i("n", d.n).arr("a", ivec(M)).arr("x", ivec(d.x)).arr("y", yi2).i("nonint", nonint2 + (y1.cwiseAbs().maxCoeff() != 0 ? 1 : 0));
+        b.i("rows", (ll) Y.rows()).i("cols", (ll) d.n);
+        out().put(b);
+    }
 }
 
 template <typename Sc, int Uplo, int Flags>
@@ -161,6 +177,21 @@ static void sparse_sym_prod(const Data& d, int tycode, const char* si)
     l.str("w", "SparseSymMatProd").str("st", "sparse").i("uplo", Uplo == UP ? 1 : 0).i("rm", Flags == RM ? 1 : 0).str("si", si).i("ty", tycode).i("sym", 1);
     l.str("how", "plain").i("n", d.n).arr("a", ivec(d.S)).arr("x", ivec(d.x)).arr("y", yi).i("nonint", nonint).i("rows", (ll) op.rows()).i("cols", (ll) op.cols());
     out().put(l);
+    // the block product operator* (the interface the Davidson solver uses): first column of op * [x, 2x]
+    {
+        Mat X(d.n, 2);
+        X.col(0) = x;
+        X.col(1) = Sc(2) * x;
+        Mat Y = op * X;
+        Vec y0 = Y.col(0);
+        int nonint2 = 0;
+        std::vector<ll> yi2 = exact_ints(y0, nonint2);
+        Vec y1 = Y.col(1) - Sc(2) * y0;
+        Line b("Prod");
+        b.str("w", "SparseSymMatProd").str("st", "sparse").i("uplo", Uplo == UP ? 1 : 0).i("rm", Flags == RM ? 1 : 0).str("si", si).i("ty", tycode).i("sym", 1);
+        b.str("how", "block").i("n", d.n).arr("a", ivec(d.S)).arr("x", ivec(d.x)).arr("y", yi2).i("nonint", nonint2 + (y1.cwiseAbs().maxCoeff() != 0 ? 1 : 0)).i("rows", (ll) Y.rows()).i("cols", (ll) d.n);
+        out().put(b);
+    }
 }
 template <typename Sc, int Flags, typename SI>
 static void sparse_gen_prod(const Data& d, int tycode, const char* si)
@@ -712,6 +743,17 @@ void dispatch(const Desc& d)
             ssi_all<Eigen::Sparse, Eigen::Dense>(dt, sigma);
             ssi_all<Eigen::Sparse, Eigen::Sparse>(dt, sigma);
             composites(dt, sigma);
+            // the shift 0 (legal for shift-and-invert whenever A itself is nonsingular): all 64 configurations once more
+            {
+                Eigen::FullPivLU<MatL> lu(dt.S.cast<LD>());
+                if (lu.isInvertible() && lu.rcond() > 1e-3L)
+                {
+                    ssi_all<Eigen::Dense, Eigen::Dense>(dt, 0.0);
+                    ssi_all<Eigen::Dense, Eigen::Sparse>(dt, 0.0);
+                    ssi_all<Eigen::Sparse, Eigen::Dense>(dt, 0.0);
+                    ssi_all<Eigen::Sparse, Eigen::Sparse>(dt, 0.0);
+                }
+            }
         }
 #endif
     }
